@@ -105,6 +105,10 @@ LEDGER_B = '''
 2021-01-08 * "Spend" "usd"
   Assets:Cash    -30 USD
   Expenses:Misc   30 USD
+
+2021-01-09 * "Exchange" "eur for usd"
+  Assets:Cash   -100 EUR @ 1.25 USD
+  Assets:Cash    125 USD
 '''
 
 _cache = {}
